@@ -1,4 +1,5 @@
 import IstioModel.C04.DeltaProtocol
+import IstioModel.C04.DeltaProtocolLemmas
 import IstioModel.C04.DeltaTraceTheorems
 
 /-!
@@ -15,41 +16,6 @@ so whenever nothing is in flight towards the server and nothing is pending, the 
 client wants (`dloop_quiescent_record_matches`) - also when the client's last message was a rejection.
 -/
 namespace IstioModel.C04
-
-theorem mem_applyChange (l sub unsub : List String) (x : String) :
-    x ∈ applyChange l sub unsub ↔ (x ∈ l ∨ x ∈ sub) ∧ x ∉ unsub ∧ x ≠ "*" := by
-  unfold applyChange
-  simp only [List.mem_filter, List.mem_append, Bool.and_eq_true, Bool.not_eq_true', bne_iff_ne, ne_eq,
-    List.contains_eq_mem, decide_eq_false_iff_not]
-  constructor
-  · rintro ⟨h1 | ⟨h1, _⟩, h2, h3⟩
-    · exact ⟨Or.inl h1, h2, h3⟩
-    · exact ⟨Or.inr h1, h2, h3⟩
-  · rintro ⟨h1 | h1, h2, h3⟩
-    · exact ⟨Or.inl h1, h2, h3⟩
-    · by_cases hx : x ∈ l
-      · exact ⟨Or.inl hx, h2, h3⟩
-      · exact ⟨Or.inr ⟨h1, hx⟩, h2, h3⟩
-
-theorem mem_removeAll (l r : List String) (x : String) : x ∈ removeAll l r ↔ x ∈ l ∧ x ∉ r := by
-  simp [removeAll]
-
-theorem mem_addAll (l a : List String) (x : String) : x ∈ addAll l a ↔ x ∈ l ∨ x ∈ a := by
-  unfold addAll
-  simp only [List.mem_append, List.mem_filter, Bool.not_eq_true', List.contains_eq_mem, decide_eq_false_iff_not]
-  constructor
-  · rintro (h | ⟨h, _⟩)
-    · exact Or.inl h
-    · exact Or.inr h
-  · rintro (h | h)
-    · exact Or.inl h
-    · by_cases hx : x ∈ l
-      · exact Or.inl hx
-      · exact Or.inr ⟨h, hx⟩
-
-/-- The fold of the changes carried by a list of requests. -/
-def foldMsgs (l : List String) (ms : List DMsg) : List String :=
-  ms.foldl (fun l m => applyChange l m.sub m.unsub) l
 
 /-- Server part: the record is the fold of the handled changes. -/
 def SInv (t : Ty) (y : DSys) : Prop :=
@@ -173,23 +139,6 @@ theorem sinv_step (t : Ty) (hm : t.managed = false) (y : DSys) (e : DStep) (h : 
       obtain ⟨w2, hw2, hn2⟩ := sendDelta_names y.srv t n ok prev hs
       simp only [hw2]
       rw [hn2]; exact h
-
-theorem foldMsgs_append (l : List String) (a b : List DMsg) : foldMsgs l (a ++ b) = foldMsgs (foldMsgs l a) b := by
-  simp [foldMsgs, List.foldl_append]
-
-/-- Folding an empty change over a fold result changes nothing (as a set), provided `*` is not in it. -/
-theorem mem_applyChange_nil (l : List String) (x : String) (h : "*" ∉ l) : x ∈ applyChange l [] [] ↔ x ∈ l := by
-  rw [mem_applyChange]
-  constructor
-  · rintro ⟨h1 | h1, _, _⟩
-    · exact h1
-    · simp at h1
-  · intro hx
-    exact ⟨Or.inl hx, by simp, fun e => h (e ▸ hx)⟩
-
-theorem star_not_mem_applyChange (l sub unsub : List String) : "*" ∉ applyChange l sub unsub := by
-  intro h
-  exact ((mem_applyChange l sub unsub "*").mp h).2.2 rfl
 
 theorem cinv_step (t : Ty) (y : DSys) (e : DStep) (h : CInv y) : CInv (dstep t y e) := by
   cases e with
